@@ -27,7 +27,7 @@ type BuilderRule struct {
 }
 
 func (rule BuilderRule) AsRewriteRule(pkg string) (builder.RewriteRule, error) {
-	if err := oneMemberOnly("builder rules", rule); err != nil {
+	if err := OneMemberOnly("builder rules", rule); err != nil {
 		return nil, err
 	}
 
